@@ -27,9 +27,11 @@ PROP = dict(
         "the worker-process harness (harness/src/fework.rs) that attributes a process death to the text being compiled",
     ],
     assumptions=[
-        "confirmed crashes with a fix pending are gated by start-up probes (fecorpus::GATES: D53 stack overflow on `fn f() { f }`, "
-        "D54, D55, D56, D57): while a probe still crashes, crashes at the site it reports are counted under its id and named in a "
-        "note; a probe that stops crashing gates nothing",
+        "confirmed crashes are start-up probes (fecorpus::GATES), run in a child process before the stream: D53 (stack overflow on "
+        "`fn f() { f }`), D54, D55, D56, D57 have been fixed and are regression inputs (a crash is a failing input again); F8 "
+        "(`array<>`), F9 (`PushNil(0); Pop` in the optimizer) and F10 (blanket `implement I for T`) have a fix pending: while such a "
+        "probe still crashes, crashes at the site it reports are counted under its id and named in a note; once it stops crashing "
+        "it gates nothing",
         "deep nesting is bounded at 200 levels and judged with a 64 MB stack on an opt-level-1 build",
         "single-file programs: imports of the corpus programs are left unresolved",
     ],
